@@ -6,7 +6,7 @@ From V Require Import Gen.Params Lib.Hex Wire.Varint Wire.Headers Wire.HeadersPr
      PktProt.PktNum PktProt.PktNumProofs PktProt.Protect PktProt.ProtectProofs PktProt.ProtectExamples
      UFrames.Model UFrames.Proofs UFrames.ProofsLength Wire.FramesBase Wire.Frames
      PktProt.InitialProtect
-     UPacker.Model UPacker.ProofsSize UPacker.ProofsFlight UPacker.ProofsDecrypt UPacker.ProofsRandom UPacker.ProofsWire UPacker.ProofsInitialKeys UPacker.ProofsFrames UPacker.ProofsFramesRandom UPacker.ProofsTop.
+     UPacker.Model UPacker.ProofsSize UPacker.ProofsFlight UPacker.ProofsDecrypt UPacker.ProofsRandom UPacker.ProofsWire UPacker.ProofsInitialKeys UPacker.ProofsFrames UPacker.ProofsFramesRandom UPacker.ProofsCover UPacker.ProofsTop.
 Import ListNotations.
 Open Scope Z_scope.
 
@@ -674,3 +674,59 @@ Theorem C10_hp_sample_inside : forall plan hdr pnLen plen udpMin lf pl dl rp,
 Proof. exact t_C10_hp_sample_inside. Qed.
 Print Assumptions C10_hp_sample_inside.
 
+
+(** ** final round (add-only): the flight covers the ClientHello; datagrams are >= 1200 bytes *)
+
+(** For every per-datagram builder kind (pass-through, plain, Ex, random): when no datagram of
+    the flight fails (builder / buffer error; C10_fits_or_error says when) and every packet has
+    header + tag + 11 bytes of room ([margin]: frame type, an offset varint of up to 8 bytes, the
+    length byte and one data byte), the flight is NON-EMPTY and the CRYPTO ranges popped for its
+    datagrams, in order, are non-empty, contiguous from offset 0 and add up to the whole
+    ClientHello.  C09's flightLoop_chain / flightLoop_drains (imported read-only) with their
+    [room] hypothesis discharged from [margin].
+    _partial: dial's validation gives header + tag + 4 for the longest header the spec can
+    produce (C10_validated_header_room below), not + 11 -- with a header exactly at the accepted
+    limit the flight stalls once the write offset needs a 2-byte varint (C10_stall_witness; OPEN
+    observation in UPacker/ProofsCover.v) -- and [no_dgerr] stays a hypothesis. *)
+Theorem C10_accepted_flight_covers_hello_partial : forall c helloLen plens,
+  c_bk c <> BFlight -> 0 < helloLen -> margin c ->
+  UFrames.ProofsOnWireFlight.no_dgerr (flight c helloLen plens) ->
+  let fs := concat (map UFrames.ProofsOnWireFlight.dg_frames (flight c helloLen plens)) in
+  flight c helloLen plens <> [] /\
+  UFrames.ProofsOnWire.rchain 0 fs /\ Forall UFrames.ProofsOnWire.range_pos fs /\
+  UDial.Retx.total_len fs = helloLen.
+Proof. exact accepted_flight_covers_hello. Qed.
+Print Assumptions C10_accepted_flight_covers_hello_partial.
+
+(** what validateSpecT gives towards [margin]: for the header the connection really uses (at most
+    the longest one validate computed with), header + tag + 4 bytes fit every packet's maximum *)
+Theorem C10_validated_header_room : forall c scid dcid ipn lens single udpMin maxPacket tokLen,
+  validateSpecT scid dcid ipn lens single udpMin (c_plans c) maxPacket tokLen = true ->
+  c_maxSize c = maxPacket ->
+  (forall i, hdrOf c i <= maxHdrLen scid dcid lens single tokLen) ->
+  forall i idx, hdrOf c i + 16 + 4 <= capAt c idx.
+Proof. exact validated_margin_20. Qed.
+Print Assumptions C10_validated_header_room.
+
+Example C10_accepted_flight_covers_hello_nonvacuous :
+  margin ex_cfg /\
+  validateSpecT 0 8 1 [] 1 0 (c_plans ex_cfg) 1280 0 = true /\
+  UFrames.ProofsOnWireFlight.no_dgerr (flight ex_cfg 1700 []) /\
+  concat (map UFrames.ProofsOnWireFlight.dg_frames (flight ex_cfg 1700 [])) = [(0, 999); (999, 701)].
+Proof. exact (conj ex_margin ex_covers). Qed.
+Print Assumptions C10_accepted_flight_covers_hello_nonvacuous.
+
+Example C10_stall_witness : maxDataLen 63 4 = 1 /\ maxDataLen 64 4 = 0.
+Proof. exact stall_witness. Qed.
+Print Assumptions C10_stall_witness.
+
+(** Every datagram of a flight whose spec dial accepts is at least 1200 bytes long (RFC 9000
+    14.1): exactly PacketSize >= 1200 where one is pinned (or more, C10_exact_size_refuted),
+    else at least the UDP minimum, which is 1200 by default and >= 1200 when set
+    (C10_udp_min_size / C10_exact_size / C10_spec_validation composed over the flight). *)
+Theorem C10_accepted_datagram_ge_1200 : forall c scid dcid ipn lens single maxPacket helloLen plens k pn pnLen h fs lf pk dl ix rp,
+  validateSpec scid dcid ipn lens single (c_udpMin c) (c_plans c) maxPacket = true ->
+  nth_error (flight c helloLen plens) k = Some (DG pn pnLen h fs lf pk dl ix rp) ->
+  1200 <= dl.
+Proof. exact accepted_datagram_ge_1200. Qed.
+Print Assumptions C10_accepted_datagram_ge_1200.
